@@ -4,6 +4,7 @@ import (
 	"bytes"
 	"fmt"
 	"net"
+	"strings"
 	"sync"
 	"sync/atomic"
 
@@ -440,7 +441,32 @@ func c06(c *core.Ctx) {
 				var u stun.TextAttribute
 				e1 := u.GetFromAs(d1, stun.AttrType(tk.typ))
 				first := u
+				// the Go string made from the value is a string: it never changes, whatever happens to the message
+				var str string
+				switch tk.typ {
+				case 0x0006:
+					str = stun.Username(u).String()
+				case 0x0014:
+					str = stun.Realm(u).String()
+				case 0x0015:
+					str = stun.Nonce(u).String()
+				case 0x8022:
+					str = stun.Software(u).String()
+				default:
+					str = stun.Username(u).String()
+				}
+				strCopy := strings.Clone(str)
 				e2 := u.GetFromAs(d2, stun.AttrType(tk.typ))
+				keep := append([]byte(nil), d1.Raw...)
+				_, _ = d1.Write(ref.Encode(0x0001, [12]byte{7}, []ref.Attr{{Type: tk.typ, Value: bytes.Repeat([]byte{'Z'}, n)}})) // d1 is reused for the next datagram
+				if str != strCopy || str != string(v) {
+					detail["problem"] = fmt.Sprintf("the string obtained from the value read %q when it was made and reads %q after the message was reused", clipS(strCopy), clipS(str))
+					c.Violate("roundtrip", "roundtrip:string-changed:"+tk.name, detail)
+
+					return
+				}
+				_, _ = d1.Write(keep)
+				first = first[:len(first):len(first)]
 				c.Count("kept_text_values_checked", 1)
 				if e1 != nil || e2 != nil || !bytes.Equal(first, v) || !bytes.Equal(u, w) {
 					detail["problem"] = fmt.Sprintf("value kept from the first read is now %d bytes %x..., it was %d bytes %x...", len(first), clip(first), len(v), clip(v))
@@ -632,6 +658,14 @@ var c06Words = [][]byte{ //nolint:gochecknoglobals
 	[]byte("obMatJos2AAAA"), []byte("obMatJos2"), []byte("obMatJos2////+"), []byte("\xef\xbb\xbf"), []byte("\x00"), []byte(" "), []byte("\""),
 	[]byte("\r\n"), []byte("stun:"), []byte("realm=\"x\""), []byte(":"), []byte("%00"), []byte("\\"), []byte("\xc0\x80"), []byte("\xff"),
 	[]byte("\t"), []byte("=?utf-8?"), []byte("\x21\x12\xa4\x42"), []byte("\x00\x00\x00\x00"), []byte("\x80\x28\x00\x04"),
+}
+
+func clipS(s string) string {
+	if len(s) > 24 {
+		return s[:24]
+	}
+
+	return s
 }
 
 func sameTypes(a stun.UnknownAttributes, b []uint16) bool {
